@@ -71,8 +71,34 @@ func checkC10(c *Ctx) {
 			c.Inconclusive = append(c.Inconclusive, fmt.Sprintf("gocc failed on the lexer-only grammar: %v", err))
 		}
 	}
+	// "the parser's tables are indexed by exactly these numbers": table simulation through the
+	// generated TokMap (terminal NAMES on the reference side) for grammars whose terminal list has
+	// entries after the empty keyword, unreferenced tokens, and hostile spellings
+	g10 := &SynGrammar{Name: "G24", Why: "terminals first used after the empty keyword, and a token the syntax part never uses", Lex: stdLex + "id : 'a'-'z' ;\nnum : '0'-'9' ;\ncomment : '#' ;\n", ExtraToks: []string{"comment"},
+		Prods: []Prod{P("List"), P("List", NT("List"), NT("Item")), P("Item", Tok("id")), P("Item", Tok("num"), Lit("!"))}}
+	for _, g := range []*SynGrammar{g10, SynCorpus[1], HostileCorpus[0]} {
+		t, err := c.parserTarget(g, false, parserHarness...)
+		if err != nil {
+			c.Inconclusive = append(c.Inconclusive, err.Error())
+			continue
+		}
+		r := withRefTables(t, g)
+		if sj, err := c.simJob(t, g, r, "parser-columns "+g.Name, SymRun{}); err == nil {
+			jobs = append(jobs, sj)
+		} else {
+			c.Inconclusive = append(c.Inconclusive, fmt.Sprintf("%s: table simulation: %v", g.Name, err))
+		}
+		jobs = append(jobs, Job{
+			Name:           fmt.Sprintf("parser-accepts %s N=3", g.Name),
+			Target:         t,
+			Run:            SymRun{Harness: "VerifC02Accept", Params: map[string]int{"N": 3}, LoopBound: 64, LoopBounds: map[string]int{"Parse": 28}, ForkFuncs: []string{"Parse", "VerifC02Accept"}},
+			Bounds:         fmt.Sprintf("grammar %s: every sequence of 3 tokens numbered through the generated token.TokMap is accepted iff it is a sentence", g.Name),
+			RequiredCovers: []string{"end"},
+		})
+	}
+	c.BoundsText = append(c.BoundsText, "parser side of the shared numbering: for a grammar with terminals numbered after the empty keyword and an unreferenced token (G24), G02 and the hostile-spelling grammar, the generated action table read through token.TokMap.Type(name) simulates the reference LR(1) automaton (symbolic terminal), and token sequences numbered through TokMap are accepted iff sentences")
 	c.BoundsText = append(c.BoundsText, "generated token package of corpus grammars (hostile spellings; combined, -no_lexer, lexer-only, with error symbol): structural facts evaluated by the engine, round trips decided for a symbolic number and a symbolic unknown name (<= 3 bytes)",
-		"the 'lexer emits / parser is indexed by these numbers' half is enforced by C01/C02/C05/C06: their oracles speak terminal NAMES and convert through the generated token.TokMap")
+		"the 'lexer emits these numbers' half is enforced by C01 (its oracle speaks terminal NAMES and converts through the generated token.TokMap)")
 	c.RunJobs(filterJobs(jobs), 4)
 }
 
@@ -195,6 +221,14 @@ func checkC07(c *Ctx) {
 	c.RunJobs(filterJobs(jobs), 4)
 }
 
+// GWide: an alternative of twelve symbols (ten of them empty nonterminals, so that a sentence
+// has two tokens): two-digit $-placeholders.
+var GWide = &SynGrammar{Name: "G25", Why: "an alternative with twelve body symbols: placeholders $10 and $11", Lex: stdLex,
+	Prods: []Prod{
+		P("S", Lit("a"), NT("E"), NT("E"), NT("E"), NT("E"), NT("E"), NT("E"), NT("E"), NT("E"), NT("E"), NT("F"), Lit("b")),
+		P("E"), P("F"), P("F", Lit("c")),
+	}}
+
 var parserHarness = []string{"genparser/common.go", "genparser/c02.go", "genparser/c03.go"}
 
 func parseBound(n int) int { return 6*(n+1) + 4 }
@@ -205,7 +239,10 @@ func checkC03(c *Ctx) {
 		maxN = 6
 	}
 	var jobs []Job
-	for _, g := range SynCorpus {
+	for _, g := range append(append([]*SynGrammar{}, SynCorpus...), GWide) {
+		if g == GWide && os.Getenv("GV_RANDOM_ONLY") != "" {
+			continue
+		}
 		ga := g.WithRecordingActions()
 		t, err := c.parserTarget(ga, true, parserHarness...)
 		if err != nil {
